@@ -8,7 +8,7 @@ mkdir -p /tmp/mw
 git -C /repo worktree add -q --detach $W HEAD || exit 2
 if ! git -C $W apply $P; then echo "PATCH DOES NOT APPLY"; git -C /repo worktree remove --force $W; exit 2; fi
 cd "$(dirname "$0")/.."
-VERIF_REPO=$W ./check $C $T 2>&1 | grep -E "VIOLATION|KNOWN-FINDING|INCONCLUSIVE|verdict=|^  (oracle|panic|race|budget|death)" | cut -c1-400
+VERIF_REPO=$W ./check $C $T 2>&1 | grep -a -E "VIOLATION|KNOWN-FINDING|INCONCLUSIVE|verdict=|^  (oracle|panic|race|budget|death)" | cut -c1-400
 rc=${PIPESTATUS[0]}
 git -C /repo worktree remove --force $W
 rm -rf /verif/.build/$(python3 -c "import hashlib,sys;print(hashlib.sha1('$W'.encode()).hexdigest()[:10])")
